@@ -25,8 +25,16 @@ front of its callbacks (own action lists, CONTINUE / INTERRUPT per callback).  A
 (`kind: plugins`) builds a protocol from the real stock plugins (mission, random trip, leader,
 follower), drives it through their public methods and compares, callback by callback, the requests
 the python-side handlers saw with the consequences interop returned.
+
+Spelling of the calls: a protocol is written against `IProvider` (and whatever drives a wrapper against
+`IEncapsulator`), so it may pass arguments by the parameter names those interfaces publish.  In half of the
+cases a share (0.25 / 0.5 / 1) of the protocol's provider calls — table protocol and the stock-plugin
+protocol's own calls alike — and/or of the callbacks handed to the wrappers is spelt with keywords (all by
+name, all by name in another order, first positional and the rest by name); the names are read off the
+interfaces' signatures with `inspect`, the same spelling is used in both legs, the model never sees it.
 """
 import copy
+import inspect
 import json
 import logging
 import os
@@ -39,9 +47,10 @@ from common import TICK, bitsf, bitsv3, fbits, stable_hash, to_ticks
 from framework import Check
 from simimpl import quiet_logging
 
+from gradysim.encapsulator.interface import IEncapsulator
 from gradysim.encapsulator.interop import InteropEncapsulator, ConsequenceType
 from gradysim.encapsulator.python import PythonEncapsulator
-from gradysim.protocol.interface import IProtocol
+from gradysim.protocol.interface import IProtocol, IProvider
 from gradysim.protocol.messages.communication import (SendMessageCommand, BroadcastMessageCommand,
                                                       CommunicationCommandType)
 from gradysim.protocol.messages.mobility import (GotoCoordsMobilityCommand, GotoGeoCoordsMobilityCommand,
@@ -107,6 +116,61 @@ def leg_steps(case, leg):
 def nat_of(v):
     v = str(v)
     return int(v) if v.isascii() and v.isdigit() else 0
+
+
+# ---------------------------------------------------------------------------------- how a call is spelt
+SPELLINGS = ["kw", "kw", "kwrev", "tail"]
+
+
+def published(iface, method):
+    """the parameter names an interface of the project publishes for a method (read off its signature)"""
+    try:
+        ps = list(inspect.signature(getattr(iface, method)).parameters.values())
+    except (AttributeError, TypeError, ValueError):
+        return None
+    if ps and ps[0].name == "self":
+        ps = ps[1:]
+    if any(p.kind is not inspect.Parameter.POSITIONAL_OR_KEYWORD for p in ps):
+        return None
+    return [p.name for p in ps]
+
+
+def spelled(fn, iface, method, values, how):
+    """call `fn(*values)` the way a caller written against `iface.method` may spell it: positionally, with
+    every argument by its published name (in the published or another order), or the first one positionally
+    and the rest by name"""
+    names = published(iface, method)
+    values = list(values)
+    if how in (None, "pos") or names is None or len(names) != len(values):
+        return fn(*values)
+    pairs = list(zip(names, values))
+    if how == "kw":
+        return fn(**dict(pairs))
+    if how == "kwrev":
+        return fn(**dict(reversed(pairs)))
+    if how == "tail":
+        return fn(values[0], **dict(pairs[1:]))
+    raise ValueError(how)
+
+
+def gen_kw(tag, seed, i):
+    """how a case's protocol (and the driver of its wrapper) spells its calls: half of the cases positionally
+    throughout (like the project's own plugins), the others with a share of keyword spellings"""
+    r = random.Random(stable_hash(tag, seed, i))
+    share = r.choice([0.0, 0.0, 0.0, 0.25, 0.5, 1.0])               # of the protocol's provider calls
+    deliver = r.choice([0.0, 0.0, 0.0, 0.5, 1.0])                   # of the callbacks handed to the wrapper
+    if not share and not deliver:
+        return None
+    return {"seed": r.randrange(1 << 30), "share": share, "deliver": deliver}
+
+
+def draw_spelling(kw, *where, which="share"):
+    """spelling of one call, from the case's `kw` entry {"seed", "share", "deliver"} and the place of the call"""
+    share = (kw or {}).get(which) or 0.0
+    if not share:
+        return "pos"
+    r = random.Random(stable_hash("C14-kw", kw.get("seed", 0), which, *where))
+    return r.choice(SPELLINGS) if r.random() < share else "pos"
 
 
 # ---------------------------------------------------------------------------------- behaviour
@@ -302,7 +366,10 @@ class Recorder:
         plug = case.get("plug") or {}
         self.stages = int(plug.get("stages", 0))     # dispatcher handlers the protocol puts in front of its callbacks
         self.plug_at = plug.get("at", "initialize") if self.stages else None
+        self.kw = case.get("kw") or {}   # share of the provider calls spelt with the parameter names IProvider publishes
+        self.spelt = {}                  # spellings used (statistics)
         self.transcripts = []      # one list of [act, ok] per delivered callback (all the handlers it reached)
+        self.excs = []             # per delivered callback: exception type name (or None) of every transcript entry
         self.activations = []      # per delivered callback: the handlers reached, ["own" | stage, id, kind, key, time, pos]
         self.own_calls = []        # per delivered callback: how often the protocol's own method ran
         self.exc = []              # exception type names of refused calls, in order
@@ -321,6 +388,7 @@ class Recorder:
     def begin_step(self):
         """the driver is about to deliver one callback to a wrapper"""
         self.transcripts.append([])
+        self.excs.append([])
         self.activations.append([])
         self.own_calls.append(0)
         self.opened = False
@@ -442,11 +510,13 @@ class Recorder:
             self.perform(proto, act)
         except Exception as e:
             tr.append([act, False])
+            self.excs[-1].append(type(e).__name__)
             self.exc.append(type(e).__name__)
             if uncaught:
                 raise
             return False
         tr.append([act, True])
+        self.excs[-1].append(None)
         return True
 
     def extension(self, proto, which):
@@ -463,23 +533,31 @@ class Recorder:
             self.ext_keep = getattr(self, "ext_keep", []) + [proto]      # keeps id(proto) unique
         return obj
 
+    def ask(self, proto, method, *values):
+        """one call of a provider method, spelt positionally or with the names `IProvider` publishes"""
+        p = proto.provider
+        how = draw_spelling(self.kw, p.get_id(), to_ticks(p.current_time()), len(self.transcripts[-1]), method)
+        if how != "pos":
+            self.spelt[how] = self.spelt.get(how, 0) + 1
+        return spelled(getattr(p, method), IProvider, method, values, how)
+
     def perform(self, proto, act):
         p = proto.provider
         op = act[0]
         if op == "setTimer":
-            p.schedule_timer(act[1], act[2] / TICK)
+            self.ask(proto, "schedule_timer", act[1], act[2] / TICK)
         elif op == "cancelTimer":
-            p.cancel_timer(act[1])
+            self.ask(proto, "cancel_timer", act[1])
         elif op == "send":
-            p.send_communication_command(SendMessageCommand(act[1], act[2]))
+            self.ask(proto, "send_communication_command", SendMessageCommand(act[1], act[2]))
         elif op == "broadcast":
-            p.send_communication_command(BroadcastMessageCommand(act[1]))
+            self.ask(proto, "send_communication_command", BroadcastMessageCommand(act[1]))
         elif op == "goto":
-            p.send_mobility_command(GotoCoordsMobilityCommand(*bitsv3(act[1:4])))
+            self.ask(proto, "send_mobility_command", GotoCoordsMobilityCommand(*bitsv3(act[1:4])))
         elif op == "gotoGeo":
-            p.send_mobility_command(GotoGeoCoordsMobilityCommand(*bitsv3(act[1:4])))
+            self.ask(proto, "send_mobility_command", GotoGeoCoordsMobilityCommand(*bitsv3(act[1:4])))
         elif op == "setSpeed":
-            p.send_mobility_command(SetSpeedMobilityCommand(bitsf(act[1])))
+            self.ask(proto, "send_mobility_command", SetSpeedMobilityCommand(bitsf(act[1])))
         elif op == "track":
             p.tracked_variables[act[1]] = act[2]
         elif op == "setRange":
@@ -534,19 +612,25 @@ def make_protocol(rec):
     return TableProtocol
 
 
-def deliver(enc, step):
+def deliver(enc, step, how="pos"):
+    """one callback handed to a wrapper, spelt positionally or with the names `IEncapsulator` publishes"""
     kind, key = step[1], step[2]
     if kind == "initialize":
         return enc.initialize()
     if kind == "timer":
-        return enc.handle_timer(key)
+        return spelled(enc.handle_timer, IEncapsulator, "handle_timer", [key], how)
     if kind == "packet":
-        return enc.handle_packet(key)
+        return spelled(enc.handle_packet, IEncapsulator, "handle_packet", [key], how)
     if kind == "telemetry":
-        return enc.handle_telemetry(Telemetry(current_position=bitsv3(step[3])))
+        return spelled(enc.handle_telemetry, IEncapsulator, "handle_telemetry",
+                       [Telemetry(current_position=bitsv3(step[3]))], how)
     if kind == "finish":
         return enc.finish()
     raise ValueError(kind)
+
+
+def deliver_spelling(case, i):
+    return draw_spelling(case.get("kw"), i, which="deliver")
 
 
 def run_interop(case, behaviour):
@@ -564,14 +648,14 @@ def run_interop(case, behaviour):
         enc.set_timestamp(step[0] / TICK)
         rec.begin_step()
         try:
-            ret = deliver(enc, step)
+            ret = deliver(enc, step, deliver_spelling(case, i))
             ret = None if ret is None else [decode_consequence(c) for c in ret]
             if ret is None:
                 ret = "returned-None"
         except Exception as e:
             ret = "raised:" + type(e).__name__
         out.append({"ret": ret, "transcript": rec.transcripts[-1], "calls": rec.own_calls[-1],
-                    "reached": rec.activations[-1]})
+                    "reached": rec.activations[-1], "excs": rec.excs[-1]})
     pending_by = {k: len(encs[k].provider.consequences) for k in present}
     # the real extension objects, built directly on the interop-wrapped protocol, every public method
     ext = []
@@ -594,7 +678,8 @@ def run_interop(case, behaviour):
         ext.append([name, res])
     return {"callbacks": out, "pending": sum(pending_by.values()), "pendingBy": [[k, n] for k, n in pending_by.items()],
             "ext": ext, "table": list(rec.table.values()),
-            "triggers": rec.triggers, "seenPos": rec.seen_pos, "exc": rec.exc, "extBad": rec.ext_bad}
+            "triggers": rec.triggers, "seenPos": rec.seen_pos, "exc": rec.exc, "extBad": rec.ext_bad,
+            "spelt": rec.spelt}
 
 
 def run_python(case, behaviour):
@@ -617,13 +702,13 @@ def run_python(case, behaviour):
         rec.now = step[0] / TICK
         rec.begin_step()
         try:
-            deliver(encs[who[i]], step)
+            deliver(encs[who[i]], step, deliver_spelling(case, i))
             raised.append(None)
         except Exception as e:
             raised.append(type(e).__name__)
         calls.append(rec.own_calls[-1])
     return {"log": rec.log, "transcripts": rec.transcripts, "raised": raised, "calls": calls, "reached": rec.activations,
-            "table": list(rec.table.values()), "triggers": rec.triggers, "seenPos": rec.seen_pos, "exc": rec.exc}
+            "excs": rec.excs, "table": list(rec.table.values()), "triggers": rec.triggers, "seenPos": rec.seen_pos, "exc": rec.exc}
 
 
 # ---------------------------------------------------------------------------------- protocols built from the stock plugins
@@ -688,8 +773,15 @@ def make_plugin_protocol(case):
     protocol instance through `create_dispatcher`) in `initialize()` — or when the first timer fires —, drives
     them through their public methods and reports what their public properties say"""
     specs, at = case["plugins"], case.get("at", "initialize")
+    kw = case.get("kw") or {}
 
     class PluginProtocol(IProtocol):
+        def ask(self, method, *values):
+            """the protocol's own provider calls, a share of them spelt with the names `IProvider` publishes"""
+            self.asked = getattr(self, "asked", 0) + 1
+            return spelled(getattr(self.provider, method), IProvider, method, values,
+                           draw_spelling(kw, "own", self.asked, method))
+
         def initialize(self):
             self.count = 0
             self.made = False
@@ -697,7 +789,7 @@ def make_plugin_protocol(case):
             self.route = []
             if at == "initialize":
                 self.make()
-            self.provider.schedule_timer("report", self.provider.current_time() + 1)
+            self.ask("schedule_timer", "report", self.provider.current_time() + 1)
 
         def make(self):
             self.made = True
@@ -732,7 +824,7 @@ def make_plugin_protocol(case):
             return "; ".join(out) if self.made else "-"
 
         def say(self, text):
-            self.provider.send_communication_command(BroadcastMessageCommand(text))
+            self.ask("send_communication_command", BroadcastMessageCommand(text))
 
         def handle_timer(self, timer):
             if not self.made:
@@ -740,7 +832,7 @@ def make_plugin_protocol(case):
             self.count += 1
             if timer == "report":
                 self.say(f"{self.provider.get_id()} #{self.count} {self.status()}")
-                self.provider.schedule_timer("report", self.provider.current_time() + 1)
+                self.ask("schedule_timer", "report", self.provider.current_time() + 1)
             elif timer == "halt":
                 if self.mission is not None:
                     self.mission.stop_mission()
@@ -765,7 +857,7 @@ def make_plugin_protocol(case):
         def handle_packet(self, message):
             self.count += 1
             self.provider.tracked_variables["last"] = message[:24]
-            self.provider.send_communication_command(SendMessageCommand(f"ack #{self.count}", self.provider.get_id() + 1))
+            self.ask("send_communication_command", SendMessageCommand(f"ack #{self.count}", self.provider.get_id() + 1))
 
         def handle_telemetry(self, telemetry):
             self.count += 1
@@ -778,11 +870,12 @@ def make_plugin_protocol(case):
     return PluginProtocol
 
 
-def deliver_plain(enc, step):
+def deliver_plain(enc, step, how="pos"):
     kind, key = step[1], step[2]
     if kind == "telemetry":
-        return enc.handle_telemetry(Telemetry(current_position=tuple(step[3])))
-    return deliver(enc, step)
+        return spelled(enc.handle_telemetry, IEncapsulator, "handle_telemetry",
+                       [Telemetry(current_position=tuple(step[3]))], how)
+    return deliver(enc, step, how)
 
 
 def run_plugins(case):
@@ -796,10 +889,10 @@ def run_plugins(case):
         enc.encapsulate(cls)
         enc.set_id(case["id"])
         io = []
-        for step in case["steps"]:
+        for i, step in enumerate(case["steps"]):
             enc.set_timestamp(step[0] / TICK)
             try:
-                ret = deliver_plain(enc, step)
+                ret = deliver_plain(enc, step, deliver_spelling(case, i))
                 io.append({"ret": [plain_request(c) for c in ret], "raised": None})
             except Exception as e:
                 io.append({"ret": None, "raised": type(e).__name__})
@@ -814,11 +907,11 @@ def run_plugins(case):
         penc.encapsulate(cls)
         node.protocol_encapsulator = penc
         py = []
-        for step in case["steps"]:
+        for i, step in enumerate(case["steps"]):
             rec.now = step[0] / TICK
             rec.cur = []
             try:
-                deliver_plain(penc, step)
+                deliver_plain(penc, step, deliver_spelling(case, i))
                 py.append({"req": rec.cur, "raised": None})
             except Exception as e:
                 py.append({"req": rec.cur, "raised": type(e).__name__})
@@ -879,8 +972,12 @@ def gen_plugins_case(seed, i):
             steps.append([t, "packet", msg])
     if r.random() < 0.7:
         steps.append([t + r.choice([0, 1024]), "finish", ""])
-    return {"kind": "plugins", "seed": s, "rseed": rseed, "id": r.choice([0, 1, 3]), "plugins": specs, "at": at,
+    case = {"kind": "plugins", "seed": s, "rseed": rseed, "id": r.choice([0, 1, 3]), "plugins": specs, "at": at,
             "steps": steps, "label": f"gen-plugins/{seed}/{i}"}
+    kw = gen_kw("C14-plugins-kw", seed, i)
+    if kw:
+        case["kw"] = kw
+    return case
 
 
 def run_shared_class():
@@ -1052,6 +1149,9 @@ class C14(Check):
             "length (weight 0.5, in the memory half 2 of ~21); 40% of the cases with 1-3 handlers registered through "
             "create_dispatcher from the protocol's own initialize() (2/3) or at the first event (1/3), each with its own "
             "action list per callback, one of them answering INTERRUPT in 30% of the callbacks; "
+            "half of the cases spell a share (0.25/0.5/1) of the protocol's provider calls and/or (40%: 0.5/1) of the "
+            "callbacks handed to the wrapper with the parameter names IProvider / IEncapsulator publish (all by name, "
+            "reversed, first positional + rest by name; names read with inspect; same spelling in both legs); "
             "plus every public method of the three real extension classes on the interop-wrapped "
             "protocol; non-trivial = some callbacks issue 0 and others >= 3 requests of >= 2 consequence types. "
             "Plus 150 (thorough 3000) protocols built from the stock plugins created in initialize() or at the first timer "
@@ -1158,6 +1258,9 @@ class C14(Check):
                 # (which replaces the instance's callback methods) and registers handlers in front of its own
                 # callbacks — in initialize(), where the provider is there, or when the first event arrives
                 case["plug"] = {"stages": rp.choice([1, 2, 2, 3]), "at": rp.choice(["initialize", "initialize", "lazy"])}
+            kw = gen_kw("C14-kw", seed, i)
+            if kw:
+                case["kw"] = kw
             yield case
         # protocols built from the stock plugins (mission, random trip, leader, follower)
         for i in range(150 if tier == "quick" else 3000):
@@ -1380,6 +1483,38 @@ class C14(Check):
                 continue
             mine_io = [(i, cbs[j]) for j, i in enumerate(io_idx) if who[i] == inst]
             mine_py = [(i, py["transcripts"][j], py["raised"][j]) for j, i in enumerate(py_idx) if who[i] == inst]
+            # the same protocol, the same callbacks, the same times: as long as the two runs have asked the same
+            # things with the same outcome, a call one wrapper's provider goes through with is not one the other
+            # wrapper's provider fails on (handlers refusing a request on the python side are the handlers' business,
+            # cancel_timer is F14b, extensions are clause C), and a callback one wrapper returns from is not one
+            # the other lets an exception out of
+            py_excs = [py.get("excs", [])[j] if j < len(py.get("excs", [])) else None
+                       for j, i in enumerate(py_idx) if who[i] == inst]
+            for k, ((i, cb), (_, tr_py, raised_py)) in enumerate(zip(mine_io, mine_py)):
+                tr_io, ex_io, ex_py = cb["transcript"], cb.get("excs"), py_excs[k]
+                d = next((x for x, (u, v) in enumerate(zip(tr_io, tr_py)) if u != v), None)
+                if d is None and len(tr_io) == len(tr_py):
+                    raised_io = cb["ret"][len("raised:"):] if isinstance(cb["ret"], str) and cb["ret"].startswith("raised:") else None
+                    if (raised_io is None) != (raised_py is None):
+                        fails.append(("C14:wrappers-differ", f"callback #{i} {steps[i][:3]} of node {ids[inst]}: the protocol "
+                                      f"asked the same {len(tr_io)} thing(s) with the same outcome under both wrappers, but the "
+                                      f"callback {'raised ' + raised_io if raised_io else 'returned'} under interop and "
+                                      f"{'raised ' + raised_py if raised_py else 'returned'} under python"))
+                        break
+                    if raised_io is not None:
+                        break
+                    continue
+                if d is not None and tr_io[d][0] == tr_py[d][0] and tr_io[d][0][0] in CTYPE_OF and ex_io and ex_py:
+                    act = tr_io[d][0]
+                    if not tr_io[d][1] and tr_py[d][1]:
+                        fails.append(("C14:wrappers-differ", f"callback #{i} {steps[i][:3]} of node {ids[inst]}: request "
+                                      f"number {d} {act} went through under python but raised {ex_io[d]} under interop "
+                                      f"(spelling of the calls: {case.get('kw') or 'positional'})"))
+                    elif tr_io[d][1] and not tr_py[d][1] and ex_py[d] != StubRefused.__name__:
+                        fails.append(("C14:wrappers-differ", f"callback #{i} {steps[i][:3]} of node {ids[inst]}: request "
+                                      f"number {d} {act} went through under interop but raised {ex_py[d]} under python, where "
+                                      f"no handler refused it (spelling of the calls: {case.get('kw') or 'positional'})"))
+                break
             used = [rows.get(trig_key(ids[inst], steps[i][1], steps[i][2], steps[i][0])) for i, _ in mine_io]
             listlike = all(r is None or all(a[0] != "onRefused" for a in row_acts(r)) for r in used)
             uncaught = any(r is not None and r.get("uncaught") for r in used)
@@ -1470,6 +1605,8 @@ class C14(Check):
             for sp in case["plugins"]:
                 bump("stock_plugin_" + sp["p"])
             bump("stock_plugins_created_" + case.get("at", "initialize"))
+            if (case.get("kw") or {}).get("share"):
+                bump("stock_plugin_cases_with_own_calls_spelt_by_keyword")
             if impl["refused"]:
                 bump("stock_plugin_cases_with_a_refused_request")
             for st, a in zip(case["steps"], impl["interop"]):
@@ -1529,6 +1666,13 @@ class C14(Check):
                         bump("picture_" + ("read" if x[1] == "read" else "completed") + "_and_reported")
         if any(any(a[0] == "onRefused" for a in row_acts(r)) for r in impl["table"]):
             bump("cases_branching_on_refusal")
+        kw = case.get("kw") or {}
+        if kw.get("share"):
+            bump("cases_with_provider_calls_spelt_by_keyword")
+        if kw.get("deliver"):
+            bump("cases_with_callbacks_delivered_by_keyword")
+        for how, n in (impl["interop"].get("spelt") or {}).items():
+            bump("provider_calls_spelt_" + how, n)
 
     def shrink(self, case, still_fails):
         """smallest input that fails BY ITSELF, in a process that has run nothing else (so that the replay
@@ -1564,6 +1708,11 @@ class C14(Check):
 
     def minimise_plugins(self, case, still_fails):
         best = copy.deepcopy(case)
+        if best.get("kw"):
+            cand = copy.deepcopy(best)
+            del cand["kw"]
+            if still_fails(cand):
+                best = cand
         changed = True
         while changed:
             changed = False
@@ -1590,6 +1739,19 @@ class C14(Check):
             best.pop("sharedClass", None)
         if not still_fails(best):
             return case
+        if best.get("kw"):
+            # the same protocol spelling every call positionally; failing that, one spelling throughout
+            cand = copy.deepcopy(best)
+            del cand["kw"]
+            if still_fails(cand):
+                best = cand
+            for which in ("deliver", "share") if best.get("kw") else ():
+                for v in (0.0, 1.0):
+                    cand = copy.deepcopy(best)
+                    cand["kw"][which] = v
+                    if cand["kw"] == best["kw"] or still_fails(cand):
+                        best = cand
+                        break
         if best.get("plug"):
             cand = copy.deepcopy(best)          # the same protocol without its plugged handlers
             del cand["plug"]
